@@ -52,6 +52,8 @@ def main(argv):
             out['errors'].append('selfcheck: ' + str(sc))
     from vk.pool import run_units
     timeout = float(getattr(mod, 'UNIT_TIMEOUT', 900.0))
+    if tier == 'thorough':
+        timeout *= 3.0  # thorough units are several times larger; the limit only has to catch hangs
     last = [time.time()]
 
     def progress(done, total):
